@@ -20,6 +20,18 @@ type Session struct {
 	Manifests map[string][]int // LayersString -> layers, since reset
 	Lost      bool             // a call hung: the world is unusable
 	cold      map[string]Result
+	// Quiet sessions do not emit protocol lines (used with Concurrency > 1,
+	// where the call numbering depends on the schedule): direct checks only.
+	Quiet       bool
+	Concurrency int
+}
+
+func (s *Session) op(op, out string, nontrivial bool) {
+	if s.Quiet {
+		s.R.Case("quiet "+op+" => "+out, nontrivial)
+		return
+	}
+	s.R.Op(op, out, nontrivial)
 }
 
 func NewSession(r *hx.Run) *Session {
@@ -28,8 +40,11 @@ func NewSession(r *hx.Run) *Session {
 
 func (s *Session) Reset() {
 	s.W = NewWorld()
+	s.W.Concurrency = s.Concurrency
 	s.Manifests = map[string][]int{}
-	s.R.Op("reset", "ok", false)
+	if !s.Quiet {
+		s.R.Op("reset", "ok", false)
+	}
 }
 
 func (s *Session) Config(cfg Config) {
@@ -37,7 +52,7 @@ func (s *Session) Config(cfg Config) {
 	if err != nil {
 		out = "err"
 	}
-	s.R.Op(ConfigOp(cfg), out, true)
+	s.op(ConfigOp(cfg), out, true)
 	s.R.Count(fmt.Sprintf("config.scanners=%d", len(cfg)))
 }
 
@@ -46,7 +61,7 @@ func (s *Session) Index(layers []int, script Script, dead bool) Result {
 	res := s.W.Index(layers, script, dead)
 	s.Manifests[LayersString(layers)] = layers
 	nontrivial := res.Failed || len(script) > 0 || dead || res.Trace != "MGR"
-	s.R.Op(IndexOp(layers, script, dead), res.Line(), nontrivial)
+	s.op(IndexOp(layers, script, dead), res.Line(), nontrivial)
 	if res.Hang {
 		s.Lost = true
 	}
